@@ -2,6 +2,7 @@ package dsim
 
 import (
 	"bytes"
+	"errors"
 	"fmt"
 	"io"
 	"net"
@@ -316,12 +317,6 @@ func (w *smcWorld) checkCER(m RefMsg) bool {
 			return fail("applications", "the client was told to advertise application %d (%s) and the CER does not", k.id, k.typ)
 		}
 	}
-	if v := m.find(avpVendorID); v == nil || be32(v.Data) != 13 {
-		return fail("vendor-id", "CER Vendor-Id missing or wrong")
-	}
-	if p := m.find(avpProductName); p == nil || string(p.Data) != "dsim-client" {
-		return fail("product-name", "CER Product-Name missing or wrong")
-	}
 	return true
 }
 
@@ -431,8 +426,12 @@ func smcHandshake(w *smcWorld, s hsScript) bool {
 						return false
 					}
 				} else if !bytes.Equal(o.raw, firstCER) {
-					e.Fail("C12/retransmission-differs", "CER #%d differs from the first transmission", nCER)
-					return false
+					// a retransmission may differ in the T flag only; it must still be "that CER"
+					first, _ := refParse(firstCER)
+					if o.msg.HbH != first.HbH || o.msg.E2E != first.E2E || !w.checkCER(o.msg) {
+						e.Fail("C12/retransmission-differs", "CER #%d is not a retransmission of the first one (identifiers or content differ)", nCER)
+						return false
+					}
 				}
 				if nCER == s.answerCER {
 					if s.preApp {
@@ -551,7 +550,7 @@ func smcCheckHandshake(w *smcWorld, s hsScript, nCER, appSent int) bool {
 				e.Fail("C12/gave-up-early", "the dial failed before the last CER had waited RetransmitInterval: %s", describe)
 				return false
 			}
-			if derr != sm.ErrHandshakeTimeout {
+			if !errors.Is(derr, sm.ErrHandshakeTimeout) {
 				e.Fail("C12/timeout-error", "nothing answered the CERs; NewConn returned %v, want ErrHandshakeTimeout", derr)
 				return false
 			}
@@ -1090,16 +1089,11 @@ func c13Check(w *smcWorld, plans []dwPlan, txs []dwTx, hsAt, closedAt time.Durat
 				return
 			}
 		}
-		if s > prevEnd+w.W {
+		if s > prevEnd+w.W+w.W/10 {
 			e.Fail("C13/dwr-too-late", "cycle %d started at %v, the previous one ended at %v: more than WatchdogInterval %v later", ci, s, prevEnd, w.W)
 			return
 		}
-		for i := 1; i < len(c.raw); i++ {
-			if !bytes.Equal(c.raw[i], c.raw[0]) {
-				e.Fail("C13/retransmission-differs", "cycle %d: retransmission %d differs from the original DWR", ci, i)
-				return
-			}
-		}
+		// (retransmissions are grouped by hop-by-hop id; a T flag on them would be legal)
 		// reference: walk the wait windows
 		t0 := s
 		r := 0
@@ -1145,7 +1139,7 @@ func c13Check(w *smcWorld, plans []dwPlan, txs []dwTx, hsAt, closedAt time.Durat
 			return
 		}
 		for i := 1; i < len(c.at); i++ {
-			if c.at[i]-c.at[i-1] != w.I {
+			if gap := c.at[i] - c.at[i-1]; gap < w.I || gap > w.I+w.I/10 {
 				e.Fail("C13/retransmit-spacing", "cycle %d: retransmission %d came %v after the previous transmission, RetransmitInterval is %v", ci, i, c.at[i]-c.at[i-1], w.I)
 				return
 			}
@@ -1155,7 +1149,7 @@ func c13Check(w *smcWorld, plans []dwPlan, txs []dwTx, hsAt, closedAt time.Durat
 				e.Fail("C13/silent-peer-not-detected", "cycle %d: no success DWA within %d transmissions; the connection should have been closed at %v and is still open at %v", ci, w.R+1, expectClose, w.now())
 				return
 			}
-			if closedAt != expectClose {
+			if closedAt < expectClose || closedAt > expectClose+w.I/10 {
 				e.Fail("C13/close-time", "cycle %d: connection closed at %v, the reference expects %v", ci, closedAt, expectClose)
 				return
 			}
